@@ -10,7 +10,7 @@ for d in $SRC/m*; do
   [ -f $d/patch.diff ] || continue
   WT=/tmp/wt_ev2_${P}_$$
   git -C /repo worktree add -f $WT HEAD >/dev/null 2>&1 || { echo "worktree failed"; exit 2; }
-  rundemo() { if grep -q "def test_\|unittest" "$d/demo.py"; then (cd $WT && PYTHONPATH=$WT timeout 900 /venv/bin/python -m pytest -q -p no:cacheprovider "$d/demo.py" >/tmp/ev2demo_$$.log 2>&1); else (cd $WT && PYTHONPATH=$WT timeout 900 /venv/bin/python "$d/demo.py" >/tmp/ev2demo_$$.log 2>&1); fi; echo $?; }
+  rundemo() { local rc; if grep -q "def test_\|unittest" "$d/demo.py"; then (cd $WT && PYTHONPATH=$WT timeout 900 /venv/bin/python -m pytest -q -p no:cacheprovider "$d/demo.py" >/tmp/ev2demo_$$.log 2>&1); rc=$?; if [ $rc = 5 ]; then (cd $WT && PYTHONPATH=$WT timeout 900 /venv/bin/python "$d/demo.py" >/tmp/ev2demo_$$.log 2>&1); rc=$?; fi; else (cd $WT && PYTHONPATH=$WT timeout 900 /venv/bin/python "$d/demo.py" >/tmp/ev2demo_$$.log 2>&1); rc=$?; fi; echo $rc; }
   c=$(rundemo)
   if ! (cd $WT && git apply $d/patch.diff); then echo "$P $(basename $d): patch does not apply" ; git -C /repo worktree remove --force $WT; continue; fi
   m=$(rundemo)
